@@ -530,6 +530,10 @@ class AwareASTNode(DataClassSerializeMixin):
             for c, f, i in node.get_child_nodes_with_field():
                 c._set_parent(node, f, i)
 
+            # Children may have been replaced while this node was detached
+            # (nobody was there to propagate the change), so refresh the content id
+            node._set_content_id()
+
             AwareASTNode._nodes[node.id] = node
 
     def _replace_child(
